@@ -24,6 +24,14 @@ Deviations crossed with the families (each is a dimension of the enumeration, ne
   the curve / patch nor the caller's control point arrays (C19.bezier.{curve,patch}.ownership); construction,
   evaluation and export leave the caller's arrays as they were (C19.bezier.{curve,patch}.inputs_unchanged); the
   control points are handed over as tuples, as one ndarray, as Vec objects.
+* argument forms / documented defaults (C19.defaults.*): every public entry point (the five samplers, the ways of asking for a
+  box AABB / unit_cube / of_points / of_mesh, BezierCurve / BezierPatch constructors, evaluate, as_polyline, as_surface) is
+  called all by keyword, positionally in the documented order up to each option, and with every option that has its documented
+  default left out (one at a time, all together): under the same scripted draws every form must hand back the very answer of
+  the fully explicit keyword call (type, count, every coordinate / index / attribute), which is judged against the exact
+  expectation - here also at the default sizes as_polyline() = 100 points and as_surface() = 20 x 20, which the small
+  resolutions never reach.  The documented signatures are pinned in DOC_SIGNATURE (never read from the library at run time);
+  C19.defaults.signature compares them with inspect.signature() (mc/c19_forms.py).
 """
 from __future__ import annotations
 import itertools, math, os
@@ -31,6 +39,7 @@ from fractions import Fraction as Fr
 
 from mc.core import Report, call, exc_kind
 from mc import c19_lib as L
+from mc import c19_forms as FM
 from mc.c19_lib import U6
 
 ID = "C19"
@@ -42,7 +51,9 @@ RULE = ("samplers: one case = (sampler, parameters, return mode, n_pts, script o
         "(control polygon / net over the lattice alphabet, parameter or export resolution); non-trivial = at least two "
         "distinct control points / at least one sample point; unit-of-length cases = the same with every length x 2^-40 / "
         "2^40; history cases = (polygon / net, first call, index of the moved control point, replace | in place, order of "
-        "the calls made after the edit); ownership cases = (polygon / net, argument form, call whose result is overwritten)")
+        "the calls made after the edit); ownership cases = (polygon / net, argument form, call whose result is overwritten); "
+        "argument-form cases = (entry point, requested value of every documented parameter, script of draws), each made in every "
+        "form the documented signature allows (keyword / positional up to each option / options at their documented default left out)")
 ASSUMPTIONS = [
     "randomness reaches mouette/sampling.py only through the module-level names np.random.*, random, choice (all "
     "rebound by the harness; numpy global RNG state and Python random state are verified unchanged by every execution)",
@@ -61,6 +72,13 @@ ASSUMPTIONS = [
     "two later calls, always on a fresh object; `pts` (container of Vec for a curve, list of lists of Vec for a patch) is "
     "taken as the public control-point attribute, read live by every call - which the unchanged code does",
     "ownership is only asserted for results the caller CAN overwrite (a read-only result is counted, not reported)",
+    "documented signatures (table DOC_SIGNATURE, copied from the signatures / docstrings of the unchanged tree: parameter order "
+    "and defaults return_point_cloud=False, return_normals=False, mode='uniform', centered=False, padding=0, n_pts=100, "
+    "custom_pos=None, n1=n2=20) are the reference of the argument-form clauses; every documented parameter may be passed by its "
+    "documented name; a signature that differs from the table (order, kind, default, new required parameter) is reported as a "
+    "violation of C19.defaults.signature; argument forms are compared under identical scripted draws (an answer that differs only "
+    "in which exception is raised is not a difference); these tasks are not crossed with the unit of length nor with the "
+    "attribute-blackboard / duplicate-flag variants",
 ]
 BOUNDS = {
     "quick": "sphere/ball: centres {0,(1,-2,3)} x radii {0.1,1,3} x n_pts {1,2,8,9,10,27} x 26 lattice directions "
@@ -75,11 +93,17 @@ BOUNDS = {
              "histories: curves of degree <=1 and every 4th other polygon x {evaluate at 5 parameters, as_polyline(3)} x moved "
              "index x {replace, in place} x 3 call orders; every 8th net + the generic ones x {evaluate at {0,1/3,1}^2, "
              "as_surface(2,3)} x moved index x 2 x 4 call orders; ownership: every polygon (5 parameters + as_polyline 2,3) "
-             "and the history nets (8 parameter pairs + as_surface 2x2, 3x2), argument forms tuples / ndarray / Vec by turns",
+             "and the history nets (8 parameter pairs + as_surface 2x2, 3x2), argument forms tuples / ndarray / Vec by turns; "
+             "documented defaults / call forms (both tiers alike): 15 entry points; sphere / ball 2 (centre, radius) x n_pts {1,2} x 2 "
+             "scripts x both return modes; sample_AABB 3 boxes (dim 1-3) x n_pts {2,9} x {uniform, grid} x both return modes; "
+             "polylines with 1 and 2 edges, surfaces with 1 and 2 faces, n_pts {1,2} x 2 scripts x all return modes; AABB dim 1-3, "
+             "unit_cube dim 1-4 x centered, of_points / of_mesh x padding {0, 0.5}; 2 curves (3-D degree 2, 2-D degree 3): evaluate at "
+             "{0,1/3,1}, as_polyline (n_pts, custom_pos) in {(100,None),(3,None),(100,3 pos),(7,3 pos),(100,101 pos),(2,101 pos)}; "
+             "2 generic nets (2x3, 3x3): evaluate at 3 pairs, as_surface (20,20),(2,3),(20,3),(2,20),(3,2); each in all forms",
     "thorough": "as quick with 124 lattice directions, 4 intervals per axis (340 boxes, sliding up to dim 3), polylines on 5 "
                 "lattice points plus all 63 graphs on 4 vertices, surfaces x 3 point sets with n_pts {1,2,8,9,10,27} "
                 "sliding, curves over 5 / 4 lattice points, nets 2x2 (4 pts), 2x3/3x2 (3 pts), 3x3 (2 pts); unit of length: all "
-                "surfaces and all nets; histories: every polygon, every 2nd net + the generic ones",
+                "surfaces and all nets; histories: every polygon, every 2nd net + the generic ones; documented defaults / call forms as quick",
 }
 
 N_PTS = [1, 2, 8, 9, 10, 27]
@@ -210,6 +234,9 @@ def tasks(tier):
                 out.append(dict(t, lite=True, scale_exps=ex))
             elif k == "patch":
                 out.append(dict(t, nets=t["nets"][::(3 if q else 1)] , lite=True, scale_exps=ex))
+    # ---- documented defaults / argument forms of every public entry point (same in both tiers)
+    for g in DEFAULTS_GROUPS:
+        out.append({"kind": "defaults", "group": g})
     return out
 
 
@@ -270,8 +297,10 @@ class Ctx:
         self.rep.violation(sub, callee, kind, icls, detail)
 
 
-def _exec(ctx: Ctx, fn, *a, normals=(), uniforms=(), choices=(), **k):
-    """One execution of real code with a scripted environment; proves the harness owned the randomness."""
+def _exec(ctx: Ctx, fn, *a, normals=(), uniforms=(), choices=(), strict=True, **k):
+    """One execution of real code with a scripted environment; proves the harness owned the randomness.
+    strict=False (argument forms whose answer is compared with the fully explicit call): draws left over / missing are
+    not a harness error there - the answer differs and THAT is reported."""
     seam, rep = ctx.seam, ctx.rep
     seam.reset(normals, uniforms, choices)
     before = ctx.snap                 # snapshot taken right after the previous execution (harness code never draws)
@@ -288,7 +317,7 @@ def _exec(ctx: Ctx, fn, *a, normals=(), uniforms=(), choices=(), **k):
         rep.count("harness:unintercepted_draw")
         if len(rep.notes) < 3:
             rep.notes.append(o.msg)
-    elif o.ok and (seam.wrapped or seam.leftover()):
+    elif o.ok and strict and (seam.wrapped or seam.leftover()):
         rep.count("harness:draw_structure_unexpected")
         if len(rep.notes) < 3:
             rep.notes.append(f"{getattr(fn, '__name__', fn)}: draws {seam.log[:6]} leftover {seam.leftover()} wrapped {seam.wrapped}")
@@ -1436,6 +1465,432 @@ def _run_patch_hist(task, ctx: Ctx):
                                          "edit": "pts[i][j] = Vec(p + OFFSET) | pts[i][j][...] = p + OFFSET", "offset": OFFSET}})
 
 
+# ================================================================================================ documented defaults / argument forms
+# Every public entry point of this property is also called in every ARGUMENT FORM the documented signature allows: all by keyword,
+# positionally in the documented order (up to each option), every option that has its documented default left out (one at a time,
+# all together).  By the documented signature all these calls mean the same, so - under the same scripted draws - they must hand
+# back the same answer (type, count, every coordinate / index / attribute) as the fully explicit keyword call, which is itself judged
+# against the exact expectation (here for the default sizes 100 / 20 x 20 the small families never reach, else by the regular tasks).
+# The table is copied from the signatures / docstrings of the unchanged tree and is never read from the library at run time.
+REQ = FM.REQ
+DOC_SIGNATURE = {
+    "sampling.sample_sphere": [["center", REQ], ["radius", REQ], ["n_pts", REQ], ["return_point_cloud", False]],
+    "sampling.sample_ball": [["center", REQ], ["radius", REQ], ["n_pts", REQ], ["return_point_cloud", False]],
+    "sampling.sample_AABB": [["box", REQ], ["n_pts", REQ], ["mode", "uniform"], ["return_point_cloud", False]],
+    "sampling.sample_polyline": [["mesh", REQ], ["n_pts", REQ], ["return_point_cloud", False]],
+    "sampling.sample_surface": [["mesh", REQ], ["n_pts", REQ], ["return_point_cloud", False], ["return_normals", False]],
+    "AABB": [["p_min", REQ], ["p_max", REQ]],
+    "AABB.unit_cube": [["dim", REQ], ["centered", False]],
+    "AABB.of_points": [["points", REQ], ["padding", 0.0]],
+    "AABB.of_mesh": [["mesh", REQ], ["padding", 0.0]],
+    "BezierCurve": [["control_points", REQ]],
+    "BezierCurve.evaluate": [["t", REQ]],
+    "BezierCurve.as_polyline": [["n_pts", 100], ["custom_pos", None]],
+    "BezierPatch": [["control_points", REQ]],
+    "BezierPatch.evaluate": [["u", REQ], ["v", REQ]],
+    "BezierPatch.as_surface": [["n1", 20], ["n2", 20]],
+}
+DEFAULTS_GROUPS = ["signature", "sphere", "ball", "box", "aabb", "polyline", "surface", "curve", "patch"]
+D_CURVES = [[[0, 0, 0], [1, 2, -1], [-2, 1, 3]], [[0, 0], [1, 2], [-2, 1], [3, -1]]]
+
+
+def _resolve(callee):
+    import mouette as M
+    from mouette import sampling
+    from mouette.geometry import AABB
+    parts = callee.split(".")
+    obj = {"sampling": sampling, "AABB": AABB, "BezierCurve": M.splines.BezierCurve, "BezierPatch": M.splines.BezierPatch}[parts[0]]
+    for a in parts[1:]:
+        obj = getattr(obj, a)
+    return obj
+
+
+def _short(v):
+    import numpy as np
+    if isinstance(v, np.ndarray):
+        return f"{type(v).__name__}({v.tolist()})"
+    if isinstance(v, (list, tuple)) and len(v) > 8:
+        return f"[{v[0]!r}, {v[1]!r}, ..., {v[-1]!r}]({len(v)} values)"
+    return repr(v)
+
+
+class FormsRun:
+    """bookkeeping of one defaults task: does the value of an option change the answer (so that leaving it out can fail)?"""
+
+    def __init__(self):
+        self.answers = {}
+
+    def note(self, callee, key, sig, values, show, truth):
+        import json
+        doc = {n: d for n, d in sig}
+        blob = json.dumps(truth, sort_keys=True, default=repr)
+        for p in FM.options_of(sig):
+            k = repr((callee, key, p, [(q, show(values[q])) for q, _ in sig if q != p]))
+            self.answers.setdefault((callee, p, k), []).append((FM.same_value(doc[p], values[p]), blob))
+
+    def flush(self, rep):
+        for (callee, p, _), entries in self.answers.items():
+            if any(a[0] and not b[0] and a[1] != b[1] for a in entries for b in entries):
+                rep.flag(f"defaults:matters:{callee}:{p}")
+
+
+def _forms_check(ctx, fr, callee, sig, values, invoke, det0, key, labels=None, judge=None):
+    """ONE requested meaning (values of all documented parameters) made in every argument form; invoke(pos, kw, strict) makes the
+    call on the real code.  Reported: a form whose answer is not the answer of the fully explicit keyword call."""
+    rep = ctx.rep
+    labels = labels or {}
+    show = lambda v: labels.get(id(v)) or _short(v)
+    fs = FM.forms(sig, values)
+    args_of = lambda f: ([values[n] for n in f["pos"]], {n: values[n] for n in f["kw"]})
+    documented = [[n, d if isinstance(d, str) and d == REQ else repr(d)] for n, d in sig]
+    o_truth = invoke(*args_of(fs[0]), True)
+    truth = FM.canon(o_truth)
+    truth_text = FM.call_text(callee, fs[0], values, show)
+    rep.flag(f"defaults:keyword:{callee}")
+    rep.case(("defaults", callee, repr(key), [show(values[n]) for n, _ in sig]))
+    if truth[0] == "raises":
+        # the unambiguous reading does not answer: if the all-positional call does, the keyword form is what is broken
+        allpos = [f for f in fs if f["sub"] == "positional"][-1]
+        o_pos = invoke(*args_of(allpos), True)
+        if o_pos.ok:
+            ctx.violation("C19.defaults.keyword", callee, exc_kind(o_truth), "all_by_keyword",
+                          dict(det0, call=truth_text, msg=o_truth.msg, documented_signature=documented,
+                               answers_when_called=FM.call_text(callee, allpos, values, show)))
+            o_truth, truth, truth_text = o_pos, FM.canon(o_pos), FM.call_text(callee, allpos, values, show)
+    if judge is not None and o_truth.ok:
+        judge(o_truth)
+    fr.note(callee, key, sig, values, show, truth)
+    positional_failed, single_failed = False, False
+    for f in fs[1:]:
+        if f["sub"] == "positional":
+            rep.flag(f"defaults:positional:{callee}:{f['pos'][-1]}")
+            if positional_failed:
+                continue
+        else:
+            for p in f["omitted"]:
+                rep.flag(f"defaults:{'omitted_alone' if len(f['omitted']) == 1 else 'omitted_together'}:{callee}:{p}")
+        o = invoke(*args_of(f), False)
+        rep.traces += 1
+        rep.evaluations += 1
+        got = FM.canon(o)
+        kind = FM.differ(truth, got)
+        rep.outcome("defaults." + f["sub"], "same" if kind is None else kind)
+        if kind is None:
+            continue
+        if f["sub"] == "positional":
+            positional_failed = True
+        elif len(f["omitted"]) == 1:
+            single_failed = True
+        elif single_failed:
+            rep.count("defaults:several_together_fails_like_one_alone")
+            continue
+        det = dict(det0, call=FM.call_text(callee, f, values, show), must_answer_like=truth_text, documented_signature=documented,
+                   got=FM.brief(got), want=FM.brief(truth))
+        if f["omitted"]:
+            det["left_out"] = {p: "documented default " + repr(dict(map(tuple, sig))[p]) for p in f["omitted"]}
+        if not o.ok:
+            det["msg"] = o.msg
+        ctx.violation("C19.defaults." + f["sub"], callee, kind, f["cls"], det)
+
+
+def _seam_invoke(ctx, fn, normals=(), uniforms=(), choices=()):
+    return lambda pos, kw, strict: _exec(ctx, fn, *pos, normals=normals, uniforms=uniforms, choices=choices, strict=strict, **kw)
+
+
+def _plain_invoke(ctx, fn):
+    def inv(pos, kw, strict):
+        ctx.rep.transitions += 1
+        return call(fn, *pos, **kw)
+    return inv
+
+
+def _defaults_signature(ctx, fr):
+    rep = ctx.rep
+    for callee, sig in DOC_SIGNATURE.items():
+        rep.traces += 1
+        rep.transitions += 1
+        documented = [[n, d if isinstance(d, str) and d == REQ else repr(d)] for n, d in sig]
+        o = call(lambda: FM.signature_diffs(_resolve(callee), sig))
+        for n, _ in sig:
+            rep.evaluations += 1
+            rep.flag(f"defaults:signature:{callee}:{n}")
+        rep.case(("defaults:signature", callee))
+        if not o.ok:
+            ctx.violation("C19.defaults.signature", callee, exc_kind(o), "signature", {"documented": documented, "msg": o.msg})
+            continue
+        for kind, p, lib in o.value:
+            ctx.violation("C19.defaults.signature", callee, kind, p, {"documented": documented, "library": lib})
+    rep.sample({"documented_signatures": {k: [[n, repr(d)] for n, d in v] for k, v in DOC_SIGNATURE.items()}})
+
+
+def _defaults_round(ctx, fr, ball):
+    import mouette as M
+    from mouette import sampling
+    name = "ball" if ball else "sphere"
+    callee = "sampling.sample_" + name
+    fn = getattr(sampling, "sample_" + name)
+    G = L.lattice_vectors(1)
+    combos = [(g, u) for g in G[::5] for u in U6[1::2]] if ball else [(g, None) for g in G]
+    for c, r in (([1.0, -2.0, 3.0], 3.0), ([0.0, 0.0, 0.0], 0.1)):
+        for n in (1, 2):
+            for off, rows in list(L.windows(combos, n, False))[:2]:
+                normals = [row[0][k] for k in range(3) for row in rows]
+                uniforms = [row[1] for row in rows] if ball else ()
+                for pc in (False, True):
+                    values = {"center": M.Vec(*c), "radius": r, "n_pts": n, "return_point_cloud": pc}
+                    _forms_check(ctx, fr, callee, DOC_SIGNATURE[callee], values, _seam_invoke(ctx, fn, normals, uniforms),
+                                 {"draws_per_point(normal xyz, uniform01)": rows[:3]}, (c, r, n, off))
+    ctx.rep.sample({"defaults": callee, "center": c, "radius": r, "n_pts": [1, 2]})
+
+
+def _judge_box(ctx, callee, lo, hi, det):
+    def judge(o):
+        import numpy as np
+        b = o.value
+        ctx.rep.evaluations += 1
+        g = call(lambda: (np.asarray(b.mini, dtype=float).tolist(), np.asarray(b.maxi, dtype=float).tolist()))
+        if not g.ok or g.value != ([float(x) for x in lo], [float(x) for x in hi]):
+            ctx.violation("C19.defaults.explicit", callee, exc_kind(g) if not g.ok else "mismatch:box", "explicit_call",
+                          dict(det, got=g.value if g.ok else g.msg, want=[list(lo), list(hi)]))
+    return judge
+
+
+def _defaults_box(ctx, fr):
+    """the ways of asking for a domain: AABB(p_min, p_max), AABB.unit_cube, AABB.of_points, AABB.of_mesh (exact corners)"""
+    import numpy as np
+    from mouette.geometry import AABB
+    from mc import families as F
+    for box in ([[-2, 1]], [[-2, 1], [3, 5]], [[0, 1], [-2, 1], [3, 5]]):
+        lo, hi = [float(b[0]) for b in box], [float(b[1]) for b in box]
+        _forms_check(ctx, fr, "AABB", DOC_SIGNATURE["AABB"], {"p_min": lo, "p_max": hi}, _plain_invoke(ctx, AABB), {}, len(box),
+                     judge=_judge_box(ctx, "AABB", lo, hi, {"p_min": lo, "p_max": hi}))
+    for dim in (1, 2, 3, 4):
+        for centered in (False, True):
+            lo, hi = ([-0.5] * dim, [0.5] * dim) if centered else ([0.0] * dim, [1.0] * dim)
+            _forms_check(ctx, fr, "AABB.unit_cube", DOC_SIGNATURE["AABB.unit_cube"], {"dim": dim, "centered": centered},
+                         _plain_invoke(ctx, AABB.unit_cube), {}, dim,
+                         judge=_judge_box(ctx, "AABB.unit_cube", lo, hi, {"dim": dim, "centered": centered}))
+    clouds = [[[0.0, 0.0], [2.0, -1.0], [1.0, 3.0]], np.array(LINE_POINTS, dtype=float)]
+    for ic, pts in enumerate(clouds):
+        arr = np.array(pts, dtype=float)
+        for pad in (0.0, 0.5):
+            lo, hi = (arr.min(axis=0) - pad).tolist(), (arr.max(axis=0) + pad).tolist()
+            _forms_check(ctx, fr, "AABB.of_points", DOC_SIGNATURE["AABB.of_points"], {"points": pts, "padding": pad},
+                         _plain_invoke(ctx, AABB.of_points), {}, ic,
+                         judge=_judge_box(ctx, "AABB.of_points", lo, hi, {"points": arr.tolist(), "padding": pad}))
+    mesh = F.build_polyline(LINE_POINTS[:4], [(0, 1), (1, 2), (2, 3)])
+    arr = np.array(LINE_POINTS[:4], dtype=float)
+    for pad in (0.0, 0.5):
+        lo, hi = (arr.min(axis=0) - pad).tolist(), (arr.max(axis=0) + pad).tolist()
+        _forms_check(ctx, fr, "AABB.of_mesh", DOC_SIGNATURE["AABB.of_mesh"], {"mesh": mesh, "padding": pad},
+                     _plain_invoke(ctx, AABB.of_mesh), {}, 0, labels={id(mesh): "<polyline on LINE_POINTS[:4]>"},
+                     judge=_judge_box(ctx, "AABB.of_mesh", lo, hi, {"vertices": LINE_POINTS[:4], "padding": pad}))
+    ctx.rep.sample({"defaults": "AABB / AABB.unit_cube / AABB.of_points / AABB.of_mesh", "dims": [1, 2, 3, 4], "padding": [0.0, 0.5]})
+
+
+def _defaults_aabb(ctx, fr):
+    from mouette import sampling
+    callee = "sampling.sample_AABB"
+    for box in ([[-2, 1]], [[-2, 1], [3, 5]], [[0, 1], [-2, 1], [3, 5]]):
+        dim = len(box)
+        combos = list(itertools.product(U6, repeat=dim))
+        for n in (2, 9):
+            for off, rows in list(L.windows(combos, n, False))[:1]:
+                for mode in ("uniform", "grid"):
+                    uniforms = [x for row in rows for x in row] if mode == "uniform" else ()
+                    for pc in (False, True):
+                        b = _make_box(box)
+                        values = {"box": b, "n_pts": n, "mode": mode, "return_point_cloud": pc}
+                        _forms_check(ctx, fr, callee, DOC_SIGNATURE[callee], values, _seam_invoke(ctx, sampling.sample_AABB, uniforms=uniforms),
+                                     {"box_min": [x[0] for x in box], "box_max": [x[1] for x in box], "uniform01_draws_per_point": rows[:3]},
+                                     (box, n, off), labels={id(b): "<box>"})
+    ctx.rep.sample({"defaults": callee, "boxes": "dim 1-3", "n_pts": [2, 9], "modes": ["uniform", "grid"]})
+
+
+def _defaults_polyline(ctx, fr):
+    from mouette import sampling
+    from mc import families as F
+    callee = "sampling.sample_polyline"
+    for edges in ([(0, 1)], [(0, 1), (1, 2)]):
+        coords = LINE_POINTS[:len(edges) + 1]
+        mesh = F.build_polyline(coords, edges)
+        NE = len(edges)
+        combos = [(e, t) for e in range(NE) for t in U6[1::2]]
+        for n in (1, 2):
+            for off, rows in list(L.windows(combos, n, False))[-2:]:
+                choices = [row[0] for row in rows] if NE > 1 else ()
+                uniforms = [row[1] for row in rows]
+                for pc in (False, True):
+                    values = {"mesh": mesh, "n_pts": n, "return_point_cloud": pc}
+                    _forms_check(ctx, fr, callee, DOC_SIGNATURE[callee], values,
+                                 _seam_invoke(ctx, sampling.sample_polyline, uniforms=uniforms, choices=choices),
+                                 {"vertices": coords, "edges": [list(e) for e in edges], "draws_per_point(edge index, uniform01)": rows[:3]},
+                                 (NE, n, off), labels={id(mesh): "<polyline>"})
+    ctx.rep.sample({"defaults": callee, "vertices": coords, "edges": [list(e) for e in edges]})
+
+
+def _defaults_surface(ctx, fr):
+    from mouette import sampling
+    from mc import families as F
+    callee = "sampling.sample_surface"
+    coords = SURF_POINTS["moment"]
+    for faces in ([(0, 1, 2)], [(0, 1, 2), (0, 2, 3)]):
+        mesh = F.build_surface(coords, faces)
+        NF = len(faces)
+        combos = [(f, u1, u2) for f in range(NF) for u1 in U6[1::2] for u2 in U6[2::2]]
+        for n in (1, 2):
+            for off, rows in list(L.windows(combos, n, False))[-2:]:
+                choices = [row[0] for row in rows]
+                uniforms = [x for row in rows for x in row[1:]]
+                for pc in (False, True):
+                    for wn in (False, True):
+                        values = {"mesh": mesh, "n_pts": n, "return_point_cloud": pc, "return_normals": wn}
+                        _forms_check(ctx, fr, callee, DOC_SIGNATURE[callee], values,
+                                     _seam_invoke(ctx, sampling.sample_surface, uniforms=uniforms, choices=choices),
+                                     {"vertices": coords, "faces": [list(f) for f in faces], "draws_per_point(face index, u1, u2)": rows[:3]},
+                                     (NF, n, off), labels={id(mesh): "<surface>"})
+    ctx.rep.sample({"defaults": callee, "vertices": coords, "faces": [list(f) for f in faces]})
+
+
+def _defaults_curve(ctx, fr):
+    import mouette as M
+    rep = ctx.rep
+    cls = M.splines.BezierCurve
+    for ip, poly in enumerate(D_CURVES):
+        dim = len(poly[0])
+        scale = max(1.0, max(abs(x) for p in poly for x in p))
+        Pq = [tuple(Fr(x) for x in p) for p in poly]
+        pts = [tuple(float(x) for x in p) for p in poly]
+        _forms_check(ctx, fr, "BezierCurve", DOC_SIGNATURE["BezierCurve"], {"control_points": pts}, _plain_invoke(ctx, cls), {}, ip)
+        o = call(cls, pts)
+        if not o.ok:
+            continue                                   # the construction clause of the regular tasks
+        curve = o.value
+        for t in (0.0, 1.0 / 3.0, 1.0):
+            def judge(o, t=t):
+                rep.evaluations += 1
+                got, want = _vec(o.value), L.bernstein_curve(Pq, L.frac(t))
+                if not _vclose(got, want, scale):
+                    ctx.violation("C19.bezier.curve.evaluate", "BezierCurve.evaluate", "mismatch:bernstein", "any",
+                                  {"control_points": poly, "t": t, "got": got, "want": [float(x) for x in want]})
+            _forms_check(ctx, fr, "BezierCurve.evaluate", DOC_SIGNATURE["BezierCurve.evaluate"], {"t": t},
+                         _plain_invoke(ctx, curve.evaluate), {"control_points": poly}, ip, judge=judge)
+        hundred = [i / 100.0 for i in range(101)]
+        for n_pts, custom in ((100, None), (3, None), (100, [0.0, 0.5, 1.0]), (7, [0.0, 0.25, 1.0]), (100, hundred), (2, hundred)):
+            def judge(o, n_pts=n_pts, custom=custom):
+                if custom is None:
+                    _check_polyline_export(ctx, o, poly, Pq, n_pts, [Fr(i, n_pts - 1) for i in range(n_pts)], f"{dim}d", "linspace",
+                                           {"control_points": poly, "n_pts": n_pts}, scale)
+                else:
+                    rcls = "len(custom_pos)<=100" if len(custom) <= 100 else "len(custom_pos)>100(default n_pts)"
+                    _check_polyline_export(ctx, o, poly, Pq, len(custom), [L.frac(x) for x in custom], f"{dim}d", rcls,
+                                           {"control_points": poly, "n_pts": n_pts, "custom_pos": _short(custom)}, scale, custom=True)
+            _forms_check(ctx, fr, "BezierCurve.as_polyline", DOC_SIGNATURE["BezierCurve.as_polyline"], {"n_pts": n_pts, "custom_pos": custom},
+                         _plain_invoke(ctx, curve.as_polyline), {"control_points": poly}, ip, judge=judge)
+    rep.sample({"defaults": "BezierCurve / evaluate / as_polyline", "control_points": D_CURVES,
+                "as_polyline(n_pts, custom_pos)": "(100, None), (3, None), (100, 3 positions), (7, 3 positions), (100 | 2, 101 positions)"})
+
+
+def _defaults_patch(ctx, fr):
+    import mouette as M
+    rep = ctx.rep
+    cls = M.splines.BezierPatch
+    for inet, net in enumerate([_generic_nets(2, 3)[0], _generic_nets(3, 3)[3]]):
+        flat = [p for row in net for p in row]
+        scale = max(1.0, max(abs(x) for p in flat for x in p))
+        Pq = [[tuple(Fr(x) for x in p) for p in row] for row in net]
+        pts = [[tuple(float(x) for x in p) for p in row] for row in net]
+        _forms_check(ctx, fr, "BezierPatch", DOC_SIGNATURE["BezierPatch"], {"control_points": pts}, _plain_invoke(ctx, cls), {}, inet)
+        o = call(cls, pts)
+        if not o.ok:
+            continue
+        patch = o.value
+        conv = [{"u_inner", "u_outer"}]
+
+        def narrow(got, u, v):
+            w = {"u_inner": L.bernstein_patch(Pq, v, u), "u_outer": L.bernstein_patch(Pq, u, v)}
+            ok = {c for c in conv[0] if _vclose(got, w[c], scale)}
+            if ok:
+                conv[0] = ok
+            return bool(ok), w
+
+        for u, v in ((1.0, 0.0), (1.0 / 3.0, 0.25), (0.0, 1.0)):
+            def judge(o, u=u, v=v):
+                rep.evaluations += 1
+                got = _vec(o.value)
+                ok, w = narrow(got, L.frac(u), L.frac(v))
+                if not ok:
+                    ctx.violation("C19.bezier.patch.evaluate", "BezierPatch.evaluate", "mismatch:bernstein", "rows==cols" if len(net) == len(net[0]) else "rows!=cols",
+                                  {"control_net": net, "u": u, "v": v, "got": got, "want_either": {k: [float(x) for x in x_] for k, x_ in w.items()}})
+            _forms_check(ctx, fr, "BezierPatch.evaluate", DOC_SIGNATURE["BezierPatch.evaluate"], {"u": u, "v": v},
+                         _plain_invoke(ctx, patch.evaluate), {"control_net": net}, inet, judge=judge)
+        for n1, n2 in ((20, 20), (2, 3), (20, 3), (2, 20), (3, 2)):
+            def judge(o, n1=n1, n2=n2):
+                _check_surface_export(ctx, o, net, n1, n2, "n1==n2" if n1 == n2 else "n1!=n2", narrow, scale)
+            _forms_check(ctx, fr, "BezierPatch.as_surface", DOC_SIGNATURE["BezierPatch.as_surface"], {"n1": n1, "n2": n2},
+                         _plain_invoke(ctx, patch.as_surface), {"control_net": net}, inet, judge=judge)
+    rep.sample({"defaults": "BezierPatch / evaluate / as_surface", "control_net": net, "as_surface(n1, n2)": [[20, 20], [2, 3], [20, 3], [2, 20], [3, 2]]})
+
+
+def _run_defaults(task, ctx: Ctx):
+    g = task["group"]
+    fr = FormsRun()
+    ctx.rep.flag("defaults:group:" + g)
+    if g == "signature":
+        _defaults_signature(ctx, fr)
+    elif g in ("sphere", "ball"):
+        _defaults_round(ctx, fr, ball=(g == "ball"))
+    else:
+        {"box": _defaults_box, "aabb": _defaults_aabb, "polyline": _defaults_polyline, "surface": _defaults_surface,
+         "curve": _defaults_curve, "patch": _defaults_patch}[g](ctx, fr)
+    fr.flush(ctx.rep)
+
+
+# stand-ins for the selftest of the argument-form clauses: NOT the library
+def _standin_good(box, n_pts, mode="uniform", flag=False):
+    return (box, n_pts, mode, flag)
+
+
+def _standin_changed_default(box, n_pts, mode="grid", flag=False):
+    return (box, n_pts, mode, flag)
+
+
+def _standin_flipped_default(box, n_pts, mode="uniform", flag=True):
+    return (box, n_pts, mode, flag)
+
+
+def _standin_swapped(box, n_pts, flag=False, mode="uniform"):
+    return (box, n_pts, mode, flag)
+
+
+def _selftest_defaults(rep):
+    """the argument-form clauses and the signature guard can fail, each on the stand-in with exactly its slip, and stay
+    silent on the stand-in that follows the documented signature"""
+    sig = [["box", REQ], ["n_pts", REQ], ["mode", "uniform"], ["flag", False]]
+    fake = Report()
+    fctx = Ctx(fake)
+    fr = FormsRun()
+    sigs = {}
+    for fn in (_standin_good, _standin_changed_default, _standin_flipped_default, _standin_swapped):
+        sigs[fn.__name__] = {(k, p) for k, p, _ in FM.signature_diffs(fn, sig)}
+        for mode in ("uniform", "grid"):
+            for flag in (False, True):
+                _forms_check(fctx, fr, fn.__name__, sig, {"box": 1, "n_pts": 2, "mode": mode, "flag": flag}, _plain_invoke(fctx, fn), {}, 0)
+    fr.flush(fake)
+    got = {(v["callee"], v["subcheck"], v["kind"], v["input_class"]) for v in fake.violations}
+    want = {("_standin_changed_default", "C19.defaults.omitted", "mismatch:value", "mode"),
+            ("_standin_flipped_default", "C19.defaults.omitted", "mismatch:value", "flag"),
+            ("_standin_swapped", "C19.defaults.positional", "raises:TypeError", "positional_upto:mode")}
+    want_sigs = {"_standin_good": set(), "_standin_changed_default": {("mismatch:default_value", "mode")},
+                 "_standin_flipped_default": {("mismatch:default_value", "flag")},
+                 "_standin_swapped": {("mismatch:parameter_order", "mode"), ("mismatch:parameter_order", "flag")}}
+    matters = {f for f in fake.flags if f.startswith("defaults:matters:_standin_good:")}
+    if got == want and sigs == want_sigs and len(matters) == 2 and not FM.selftest():
+        rep.flag("selftest:defaults_clauses_can_fail")
+    else:
+        rep.notes.append(f"defaults selftest: got {sorted(got)} signatures {sigs} matters {sorted(matters)} helper {FM.selftest()}")
+
+
 # ================================================================================================ self test
 class _StandInCurve:
     """NOT the library: a correct Bernstein evaluation with two habits the clauses must catch (used by the selftest)."""
@@ -1540,6 +1995,8 @@ def _run_selftest(task, ctx: Ctx):
         rep.flag("selftest:history_and_ownership_clauses_can_fail")
     else:
         rep.notes.append(f"stand-in selftest: got {sorted(got)}")
+    # 6. the argument-form clauses (documented defaults, positional / keyword forms, signature guard) can fail
+    _selftest_defaults(rep)
     rep.traces += 1
 
 
@@ -1586,6 +2043,8 @@ def _dispatch(task, ctx):
         _run_curve_hist(task, ctx)
     elif kind == "patch_hist":
         _run_patch_hist(task, ctx)
+    elif kind == "defaults":
+        _run_defaults(task, ctx)
     else:
         raise ValueError(kind)
 
@@ -1622,6 +2081,17 @@ def finish(tier, rep: Report):
     need += [f"curve_owner:evaluate:{x}" for x in ("degree==0", "parameter_at_end", "parameter_interior")]
     need += ["curve_owner:as_polyline:parameter_at_end", "patch_owner:as_surface:parameters_at_corner"]
     need += [f"patch_owner:evaluate:{x}" for x in ("net1x1", "parameters_at_corner", "parameters_on_border", "parameters_interior")]
+    # documented defaults / argument forms: every entry of the pinned table was compared with the signature, called by keyword,
+    # positionally up to it, left out alone (and together with the others) and its value changes the answer somewhere
+    need += ["selftest:defaults_clauses_can_fail"] + ["defaults:group:" + g for g in DEFAULTS_GROUPS]
+    for callee, sig in DOC_SIGNATURE.items():
+        opts = FM.options_of(sig)
+        need.append(f"defaults:keyword:{callee}")
+        need += [f"defaults:signature:{callee}:{n}" for n, _ in sig]
+        need += [f"defaults:positional:{callee}:{n}" for n in ([FM.required_of(sig)[-1]] if FM.required_of(sig) else []) + opts]
+        need += [f"defaults:{w}:{callee}:{p}" for p in opts for w in ("omitted_alone", "matters")]
+        if len(opts) >= 2:
+            need += [f"defaults:omitted_together:{callee}:{p}" for p in opts]
     for f in need:
         if f not in rep.flags:
             fails.append("coverage flag missing: " + f)
